@@ -70,7 +70,7 @@ fn check(prop: &str, tier: Tier) {
         "C06" => {
             let run = Run::new("C06", tier, "model_checking");
             let cov = vh::c06::check(&run);
-            run.finish(cov, &["value alphabets per declared type (quick: 4 values per property, thorough: all)", "a DOM that neither format can write is outside the property; one that only one format can write is reported"]);
+            run.finish(cov, &["value alphabets per declared type (all values in both tiers for single-property instances; pairs and siblings take rotating values)", "a DOM that neither format can write is outside the property; one that only one format can write is reported"]);
         }
         "C15" => {
             let run = Run::new("C15", tier, "model_checking");
